@@ -72,8 +72,95 @@ def install_catcher() -> Catcher:
 
 
 # ---- database -------------------------------------------------------------------------------------
-async def open_handler(path: Path, target: str, script: str = "vf.dbharness") -> Any:
-    """What Script._db_insert_run_meta and UDSScanner.setup do before the first request."""
+GUARD_S = 60.0  # wall-clock guard around one step of gallia's database code (such a step takes milliseconds)
+
+
+class HandlerStep(Exception):
+    """One step of gallia's own database code (DBHandler method) raised or did not return within the guard.
+    step: method name; kind: "raises" | "hangs"; error: repr of the exception ("" for a hang)."""
+
+    def __init__(self, step: str, kind: str, error: str = "", etype: str = "") -> None:
+        super().__init__(f"DBHandler.{step} {kind} {error}")
+        self.step, self.kind, self.error, self.etype = step, kind, error, etype
+
+
+async def guarded(aw: Awaitable[Any], step: str, seconds: float = GUARD_S) -> Any:
+    """await one DBHandler step; an exception of that step or an expired guard becomes HandlerStep (the caller decides what it means)"""
+    try:
+        return await asyncio.wait_for(aw, seconds)
+    except TimeoutError as e:
+        # py3.12: wait_for raises the builtin TimeoutError when the guard expires; none of the DBHandler steps raises it on its own
+        raise HandlerStep(step, "hangs", f"no return within {seconds:.0f} s wall clock", "TimeoutError") from e
+    except Exception as e:  # noqa: BLE001
+        raise HandlerStep(step, "raises", repr(e)[:300], type(e).__name__) from e
+
+
+async def force_close(handler: Any, task: Any = None, seconds: float = 15.0) -> None:
+    """After a failed / cancelled step: stop the writer task and close the sqlite connection so that its worker thread ends
+    (aiosqlite's thread is not a daemon: a connection left open keeps the interpreter alive for ever).  Never raises."""
+    for t in (task, getattr(handler, "_executor_task", None)):
+        if t is not None and not t.done():
+            t.cancel()
+            try:
+                await asyncio.wait_for(asyncio.gather(t, return_exceptions=True), 5)
+            except BaseException:  # noqa: BLE001
+                pass
+    handler._executor_task = None
+    handler._execute_queue = None
+    conn = getattr(handler, "connection", None)
+    if conn is not None:
+        try:
+            await asyncio.wait_for(conn.close(), seconds)
+        except BaseException:  # noqa: BLE001
+            try:
+                conn.stop()
+            except Exception:  # noqa: BLE001
+                pass
+        handler.connection = None
+
+
+async def close_handler(handler: Any, seconds: float = GUARD_S) -> None:
+    """handler.disconnect() under the guard; if it raises or does not return, everything is torn down by force and
+    HandlerStep("disconnect", ...) is raised."""
+    task = getattr(handler, "_executor_task", None)
+    try:
+        await guarded(handler.disconnect(), "disconnect", seconds)
+    except BaseException:
+        await force_close(handler, task)
+        raise
+
+
+def stop_leaked_connections() -> int:
+    """Last resort before a shard process ends: every aiosqlite connection whose worker thread still runs is told to stop
+    (an open connection would block interpreter shutdown until the watchdog).  Returns the number found."""
+    import gc
+
+    import aiosqlite
+
+    n = 0
+    for o in gc.get_objects():
+        try:
+            if isinstance(o, aiosqlite.Connection) and o._thread.is_alive():
+                n += 1
+                o.stop()
+        except Exception:  # noqa: BLE001
+            pass
+    return n
+
+
+def arm_exit_watchdog(seconds: float) -> None:
+    """If this process is still alive after `seconds` (a step without guard blocks, or a leaked non-daemon thread blocks the
+    interpreter shutdown after the report was written), dump all stacks to stderr and _exit: a shard must never sit idle
+    until the runner's watchdog."""
+    import faulthandler
+
+    faulthandler.dump_traceback_later(max(30.0, seconds), exit=True)
+
+
+async def open_handler(path: Path, target: str, script: str = "vf.dbharness", before_scan_run: Callable[[], None] | None = None) -> Any:
+    """What Script._db_insert_run_meta and UDSScanner.setup do before the first request.
+    Every step runs under the wall-clock guard; if one fails the connection is closed again and HandlerStep is raised.
+    before_scan_run() is called after the run_meta row is committed and before insert_scan_run (to look at the file)."""
     import gallia.command  # noqa: F401
     from gallia.command.config import GalliaBaseModel
     from gallia.db.handler import DBHandler
@@ -82,10 +169,39 @@ async def open_handler(path: Path, target: str, script: str = "vf.dbharness") ->
         pass
 
     h = DBHandler(path)
-    await h.connect()
-    await h.insert_run_meta(script=script, config=_Cfg(), start_time=datetime.now(UTC).astimezone(), path=None)
-    await h.insert_scan_run(target)
+    try:
+        await guarded(h.connect(), "connect")
+        await guarded(h.insert_run_meta(script=script, config=_Cfg(), start_time=datetime.now(UTC).astimezone(), path=None), "insert_run_meta")
+        if before_scan_run is not None:
+            before_scan_run()
+        await guarded(h.insert_scan_run(target), "insert_scan_run")
+    except BaseException:
+        await force_close(h)
+        raise
     return h
+
+
+async def open_discovery(path: Path, urls: list[str], protocol: str = "vf", script: str = "vf.dbharness.discover") -> None:
+    """What a discovery scanner leaves behind: a run_meta row, a discovery_run and one address row + discovery_result per
+    url, all written by gallia's DBHandler (insert_discovery_run / insert_discovery_result)."""
+    import gallia.command  # noqa: F401
+    from gallia.command.config import GalliaBaseModel
+    from gallia.db.handler import DBHandler
+
+    class _Cfg(GalliaBaseModel):
+        pass
+
+    h = DBHandler(path)
+    try:
+        await guarded(h.connect(), "connect")
+        await guarded(h.insert_run_meta(script=script, config=_Cfg(), start_time=datetime.now(UTC).astimezone(), path=None), "insert_run_meta")
+        await guarded(h.insert_discovery_run(protocol), "insert_discovery_run")
+        for u in urls:
+            await guarded(h.insert_discovery_result(u), "insert_discovery_result")
+    except BaseException:
+        await force_close(h)
+        raise
+    await close_handler(h)
 
 
 def read_rows(path: Path, run: int | None = None) -> list[dict[str, Any]]:
